@@ -17,7 +17,7 @@ from vmon.libutil import load_definition, monitored
 LEVEL = "exploration"
 SHARDS = {"quick": 16, "thorough": 16}
 KINDS = ("integer", "float", "enumerated", "boolean", "string", "binary", "abstime", "reltime")
-MUST = ["datasets", "cells.compared", "mode.raw", "mode.derived", "files.multi", "files.truncated_tail_before_next_file", "packets.with_spare_bytes", "kwargs.skip_header_bytes", "kwargs.parse_bad_pkts_false", "definition.form.str-path", "definition.form.Path", "apids.multi", "polymorphic.rejected", "wide_uncalibrated.datasets", "polymorphic.superset", "exotic_encodings.datasets", "reordered_fields.datasets", "manyrows.datasets", "files.form.generator", "files.form.iter", "files.form.tuple"] + [f"cells.{k}" for k in KINDS]
+MUST = ["datasets", "several_files.root_container_name", "ragged_bytes.datasets", "cells.compared", "mode.raw", "mode.derived", "files.multi", "files.truncated_tail_before_next_file", "packets.with_spare_bytes", "kwargs.skip_header_bytes", "kwargs.parse_bad_pkts_false", "definition.form.str-path", "definition.form.Path", "apids.multi", "polymorphic.rejected", "wide_uncalibrated.datasets", "polymorphic.superset", "exotic_encodings.datasets", "reordered_fields.datasets", "manyrows.datasets", "files.form.generator", "files.form.iter", "files.form.tuple"] + [f"cells.{k}" for k in KINDS]
 RULE = ("case = (flat definition: abstract root + one concrete child container per APID, each with a fixed list of "
         "parameters of random kinds/encodings; packet files: 1-3 files (30% of them ending in a truncated packet, which is no "
         "packet of the stream; sometimes with foreign prefix bytes skipped through the skip_header_bytes keyword), the definition as object / str path / Path, the files handed over as path / list / tuple / generator / iterator / map / Path list, 1-4 APIDs interleaved, values at encoding extremes "
@@ -252,6 +252,7 @@ def run(ctx):
             if i < 2:
                 ctx.sample({"doc": i, "apids": apids, "files": nfiles, "layout": {str(a): [(n, info.feat[n]) for n, _ in l] for a, l in layout.items()}})
         polymorphic(ctx, scratch)
+        roots_and_ragged_bytes(ctx, scratch)
         directed_nuls(ctx, scratch)
         if ctx.mine(3):
             many_rows(ctx, scratch)
@@ -371,6 +372,60 @@ def many_rows(ctx, scratch):
             if bad is not None:
                 ctx.violation("cell/many-rows", f"APID {apid}: row {bad} does not hold packet {idx[bad]}'s values", {"n": n, "apid": apid, "row": bad})
         ctx.sig("many-rows", raw_mode, n > 32768)
+
+
+def roots_and_ragged_bytes(ctx, scratch):
+    """(1) several files with a non-default root_container_name: EVERY file is decoded from that root. (2) a bytes column whose values
+    differ in length, the lexicographically greatest not being the longest: every cell holds its whole value."""
+    from space_packet_parser import packets as P
+    from space_packet_parser import xarr
+    from vmon.props.c05 import header_types
+    ts, ps = header_types("PKT_APID")
+    ts += [ir.PType("A_Type", "integer", ir.IntEnc(8)), ir.PType("B_Type", "integer", ir.IntEnc(16)),
+           ir.PType("BLOB_Type", "binary", ir.BinEnc(ir.DynLen("A", False, 8, None))), ir.PType("TXT_Type", "string", ir.StrEnc("US-ASCII", ir.DynLen("A", False, 8, None)))]
+    ps += [ir.Param("A", "A_Type"), ir.Param("B", "B_Type"), ir.Param("BLOB", "BLOB_Type"), ir.Param("TXT", "TXT_Type")]
+    hdr = tuple(("p", p.name) for p in ps[:7])
+    defn = load_definition(render.render_doc(ir.Doc(tuple(ts), tuple(ps), (ir.Container("CCSDSPacket", hdr + (("p", "A"), ("p", "B"))),
+                                                                                ir.Container("ALT", hdr + (("p", "B"), ("p", "A")))))))
+    files = []
+    for fi in range(3):
+        path = os.path.join(scratch, f"roots-{fi}.bin")
+        with open(path, "wb") as f:
+            for j in range(2 + fi):
+                f.write(bytes(P.create_ccsds_packet(bytes([10 * fi + j, 0x40 + fi, 0x80 + j]), apid=21)))
+        files.append(path)
+    for root in ("ALT", "CCSDSPacket"):
+        want = []
+        for path in files:
+            with open(path, "rb") as f:
+                want += [(int(pk_["A"]), int(pk_["B"])) for pk_ in defn.packet_generator(f, root_container_name=root)]
+        for form in (files, [__import__("pathlib").Path(x) for x in files]):
+            st = monitored(lambda: xarr.create_dataset(form, defn, root_container_name=root))
+            ctx.count("evaluations")
+            ctx.count("several_files.root_container_name")
+            got = None if st.exc is not None else list(zip([int(x) for x in st.value[21]["A"].values], [int(x) for x in st.value[21]["B"].values]))
+            if got != want:
+                ctx.violation(f"several-files/root_container_name/{'default' if root == 'CCSDSPacket' else 'other'}",
+                              f"create_dataset over three files with root_container_name={root!r}: rows (A, B) {got} / {st.exc!r}, the generator gives {want}", {"root": root})
+    for field, vals in (("BLOB", [b"\xff", b"\x01\x02\x03", b"\x7f\x01", b"\xfe\x01\x02\x03\x04", b"\x05"]), ("TXT", [b"z", b"abc", b"yx", b"hello", b"q"])):
+        dfn = load_definition(render.render_doc(ir.Doc(tuple(ts), tuple(ps), (ir.Container("CCSDSPacket", hdr + (("p", "A"), ("p", field))),))))
+        path = os.path.join(scratch, "ragged.bin")
+        with open(path, "wb") as f:
+            for v in vals:
+                f.write(bytes(P.create_ccsds_packet(bytes([len(v)]) + v, apid=22)))
+        for raw_mode in (False, True):
+            st = monitored(xarr.create_dataset, path, dfn, raw_mode)
+            ctx.count("evaluations")
+            ctx.count("ragged_bytes.datasets")
+            if st.exc is not None:
+                ctx.violation(f"ragged-bytes/exception/{type(st.exc).__name__}", f"create_dataset raised {st.exc!r}", {"field": field, "raw": raw_mode})
+                continue
+            cells = list(st.value[22][field].values)
+            got = [c if isinstance(c, bytes) else str(c).encode() for c in cells]
+            if field == "TXT" and not raw_mode:
+                got = [str(c).encode() for c in cells]
+            if [bytes(g) for g in got] != vals:
+                ctx.violation(f"ragged-bytes/cells/{field}/{'raw' if raw_mode else 'derived'}", f"cells {got} != values {vals}", {"field": field, "raw": raw_mode})
 
 
 def polymorphic(ctx, scratch):
